@@ -5,6 +5,65 @@ import vlib, fsrun, rstok, gram
 PROP = "C24"
 
 
+# user code whose layout is part of its meaning: literals and comments spanning lines, copied by the
+# generator in one piece (action code, use items, parameter and where clauses, extern blocks)
+STRESS = [("multiline_literals", """use std::collections::{
+    HashMap,
+        HashSet,
+};
+grammar<'a>(names: &'a HashMap<
+    String,
+      usize>);
+
+pub Banner: String = {
+    "banner" <n:r"[a-z]+"> => {
+        let text = "== banner ==
+name:
+   end";
+        let raw = r#"line one
+\ttabbed "quoted"
+  line three"#;
+        /* block comment
+           spanning lines */
+        format!("{}|{}|{}", text, raw, n) // trailing comment
+    },
+    "x" => String::from("a // not a comment
+b /* nor this */
+"),
+    "y" <l:@L> <r:@R> =>? {
+        if l == r {
+            return Err(lalrpop_util::ParseError::User { error: "empty
+span" });
+        }
+        Ok(format!("{}
+{}", l, r))
+    },
+};
+"""), ("multiline_extern", """grammar;
+extern {
+    type Location = usize;
+    type Error = &'static str;
+    enum Tok<
+        'static> {
+        "a" => Tok::A(
+            "multi
+line pattern"),
+        "b" => Tok::B,
+    }
+}
+pub S: Vec<&'static str> = {
+    <v:S> "a" => { let mut v = v; v.push("one
+  two"); v },
+    "b" => vec![r"raw
+    text"],
+};
+""")]
+
+
+VERBATIM = {"multiline_literals": ['"== banner ==\nname:\n   end"', 'r#"line one\n\ttabbed "quoted"\n  line three"#', '"a // not a comment\nb /* nor this */\n"', '"empty\nspan"', '"{}\n{}"'],
+            "multiline_extern": ['"one\n  two"', 'r"raw\n    text"']}
+
+
 def run(tier):
     t0 = time.time()
     rep = vlib.Reporter(PROP)
@@ -23,6 +82,7 @@ def run(tier):
         p = os.path.join(vlib.REPO, "lalrpop-test", "src", n + ".lalrpop")
         if os.path.exists(p):
             texts.append(("repo_" + n, open(p).read()))
+    texts += STRESS
     combos = list(itertools.product([False, True], repeat=3))   # comments, no-whitespace, report
     ncase = nbad = 0
     sizes = []
@@ -40,6 +100,13 @@ def run(tier):
         base = outs[(False, False, False)]
         if base is None:
             continue
+        for lit in VERBATIM.get(name, []):
+            for k, src in outs.items():
+                ncase += 1
+                if src is not None and lit not in src:
+                    nbad += 1
+                    rep.violation("user-literal-not-verbatim", {"what": "a string literal spanning lines in user code does not reach the generated file verbatim (comments=%s, no-whitespace=%s, report=%s)" % k,
+                                  "grammar": name, "grammar_text": text, "literal": lit})
         bt = rstok.tokens(base)
         sizes.append(len(bt))
         for k, src in outs.items():
@@ -65,7 +132,7 @@ def run(tier):
            "trusted_base": vlib.TRUSTED_COMMON + ["tools/rstok.py (Rust lexer: comments, whitespace, string/raw/char literals, lifetimes)"],
            "theorems": names, "evaluations": ncase, "distinct_nontrivial": ncase,
            "rule": "every grammar of the build corpus, the LR corpus (table-driven and recursive ascent) and self-contained repository test grammars x the 7 non-default combinations of "
-                   "--comments/--no-whitespace/--report; the token stream (comments and whitespace dropped) must equal the default output's",
+                   "--comments/--no-whitespace/--report; the token stream (comments and whitespace dropped) must equal the default output's; grammars whose user code has string literals, raw strings and comments spanning lines (action code, extern patterns, use items, parameters): each such literal must also occur verbatim in all 8 outputs",
            "distribution": {"grammars": len(texts), "tokens_per_file": {"min": min(sizes), "max": max(sizes)} if sizes else {}},
            "samples": [{"grammar": texts[0][0], "combos": 7}]}
     vlib.write_evidence(PROP, tier, "proof", cov, time.time() - t0, violations=len(rep.viol),
